@@ -11,6 +11,7 @@ import (
 	"sort"
 	"strconv"
 	"strings"
+	"sync/atomic"
 	"time"
 )
 
@@ -21,6 +22,7 @@ type backend struct {
 	out   *bufio.Reader
 	sent  int // number of table defs already sent
 	dead  bool
+	uses  int
 	stats *SolverStats
 }
 
@@ -55,9 +57,12 @@ func startBackend(name string, stats *SolverStats) *backend {
 	var cmd *exec.Cmd
 	var pre []string
 	switch name {
+	case "z3-fast":
+		cmd = exec.Command("z3", "-in")
+		pre = []string{"(set-option :timeout 150)"}
 	case "z3":
 		cmd = exec.Command("z3", "-in")
-		pre = []string{"(set-option :timeout 2000)"}
+		pre = []string{"(set-option :timeout 5000)"}
 	case "z3-new":
 		cmd = exec.Command("z3-new", "-in")
 		pre = []string{"(set-option :timeout 30000)"}
@@ -131,19 +136,54 @@ func (b *backend) readSexp() string {
 }
 
 // query asserts the given refs, checks, optionally fetches values for vars.
-func (b *backend) query(tt *termTable, asserts []int, wantModel bool, vars []int) (string, Model) {
+func (b *backend) query(tt *termTable, asserts []int, wantModel bool, vars []int, abstract bool) (string, Model) {
 	if b.dead {
 		return "unknown", nil
 	}
 	t0 := time.Now()
 	var sb strings.Builder
-	for ; b.sent < len(tt.defs); b.sent++ {
-		if d := tt.defs[b.sent]; d != "" {
-			sb.WriteString(d)
-			sb.WriteByte('\n')
-		}
-	}
 	sb.WriteString("(push 1)\n")
+	// self-contained scoped query: only the definitions this query needs
+	need := map[int]bool{}
+	var order []int
+	var walk func(id int)
+	walk = func(id int) {
+		if need[id] {
+			return
+		}
+		need[id] = true
+		for _, a := range tt.terms[id-1].args {
+			walk(tt.intern(a))
+		}
+		order = append(order, id)
+	}
+	for _, id := range asserts {
+		walk(id)
+	}
+	declared := map[string]bool{}
+	var axioms []string
+	for _, id := range order {
+		d := tt.defs[id-1]
+		if d == "" {
+			continue
+		}
+		if abstract {
+			if ad, ax, decl := abstractDef(tt, id); ad != "" {
+				if !declared[decl] {
+					declared[decl] = true
+					sb.WriteString(decl)
+					sb.WriteByte('\n')
+				}
+				d = ad
+				axioms = append(axioms, ax...)
+			}
+		}
+		sb.WriteString(d)
+		sb.WriteByte('\n')
+	}
+	for _, ax := range axioms {
+		sb.WriteString("(assert " + ax + ")\n")
+	}
 	for _, id := range asserts {
 		sb.WriteString("(assert " + tt.ref(id) + ")\n")
 	}
@@ -184,8 +224,22 @@ func (b *backend) query(tt *termTable, asserts []int, wantModel bool, vars []int
 	if res != "sat" && res != "unsat" {
 		res = "unknown"
 	}
-	b.stats.Queries[b.name+"/"+res]++
-	b.stats.Seconds[b.name] += time.Since(t0).Seconds()
+	qn := b.name
+	if abstract {
+		qn += "(abs)"
+	}
+	b.stats.Queries[qn+"/"+res]++
+	b.stats.Seconds[qn] += time.Since(t0).Seconds()
+	b.uses++
+	if strings.HasPrefix(b.name, "cvc5") && b.uses >= 1 && !b.dead {
+		// a long-lived cvc5 with --solve-bv-as-int gets slower with every scope
+		// (measured: 23 ms one-shot vs 35-130 ms persistent); use a fresh process
+		// per query, started now so that it is warm when needed.
+		old := *b
+		nb := startBackend(b.name, b.stats)
+		*b = *nb
+		go old.close()
+	}
 	return res, m
 }
 
@@ -423,21 +477,39 @@ func (p *portfolio) check(pc []int, q int, wantModel bool, noSlice bool) (string
 			break
 		}
 	}
+	if d := os.Getenv("GOSYM_DUMP_QUERIES"); d != "" && hard {
+		dumpQuery(d, p.tt, uniq)
+	}
 	res := "unknown"
 	var model Model
 	tried := 0
+	if hard {
+		// Over-approximation first: x rem c (c constant) becomes an uninterpreted
+		// function with sound axioms. unsat there implies unsat exactly; anything
+		// else is re-decided exactly below.
+		for _, b := range p.backends {
+			if b.dead || !strings.HasPrefix(b.name, "z3") {
+				continue
+			}
+			if r, _ := b.query(p.tt, uniq, false, nil, true); r == "unsat" {
+				p.cache[key] = cacheEnt{"unsat", nil}
+				return "unsat", nil
+			}
+			break
+		}
+	}
 	for pass := 0; pass < 2 && res == "unknown"; pass++ {
 		for _, b := range p.backends {
 			if b.dead {
 				continue
 			}
-			// hard arithmetic: integer-encoding back end first, then the others
-			first := hard == strings.HasPrefix(b.name, "cvc5-int")
-			if (pass == 0) != first {
+			// hard arithmetic: integer encoding first, bit-blasting back ends later
+			late := hard && strings.HasPrefix(b.name, "z3")
+			if (pass == 1) != late {
 				continue
 			}
 			tried++
-			res, model = b.query(p.tt, uniq, wantModel, vars)
+			res, model = b.query(p.tt, uniq, wantModel, vars, false)
 			if res != "unknown" {
 				break
 			}
@@ -461,10 +533,86 @@ func (p *portfolio) crossCheck(pc []int, q int, expect string) string {
 		if b.dead {
 			continue
 		}
-		r, _ := b.query(p.tt, asserts, false, nil)
+		r, _ := b.query(p.tt, asserts, false, nil, false)
 		if r != "unknown" && r != expect {
 			got += fmt.Sprintf("%s says %s, expected %s; ", b.name, r, expect)
 		}
 	}
 	return got
+}
+
+var dumpSeq int64
+
+// dumpQuery writes a self-contained SMT-LIB file (debugging / solver probes).
+func dumpQuery(dir string, tt *termTable, asserts []int) {
+	n := atomic.AddInt64(&dumpSeq, 1)
+	if n%13 != 0 || n > 13*300 {
+		return
+	}
+	need := map[int]bool{}
+	var walk func(id int)
+	walk = func(id int) {
+		if need[id] {
+			return
+		}
+		need[id] = true
+		for _, a := range tt.terms[id-1].args {
+			walk(tt.intern(a))
+		}
+	}
+	for _, a := range asserts {
+		walk(a)
+	}
+	var sb strings.Builder
+	for id := 1; id <= len(tt.terms); id++ {
+		if need[id] && tt.defs[id-1] != "" {
+			sb.WriteString(tt.defs[id-1] + "\n")
+		}
+	}
+	for _, a := range asserts {
+		sb.WriteString("(assert " + tt.ref(a) + ")\n")
+	}
+	sb.WriteString("(check-sat)\n")
+	os.WriteFile(fmt.Sprintf("%s/q%04d.smt2", dir, n), []byte(sb.String()), 0644)
+}
+
+// abstractDef returns, for a remainder-by-constant term, a definition through an
+// uninterpreted function, sound axioms about it, and the function declaration.
+func abstractDef(tt *termTable, id int) (def string, axioms []string, decl string) {
+	t := tt.terms[id-1]
+	if (t.op != opBvSRem && t.op != opBvURem) || t.bits < 32 || !t.args[1].isConst() || t.args[1].val == 0 {
+		return "", nil, ""
+	}
+	c := t.args[1].val
+	if t.op == opBvSRem && signExt(c, t.bits) <= 0 {
+		return "", nil, ""
+	}
+	kind := "srem"
+	if t.op == opBvURem {
+		kind = "urem"
+	}
+	fn := fmt.Sprintf("uf_%s_%d_%d", kind, c, t.bits)
+	sort := sortOf(t.bits)
+	decl = "(declare-fun " + fn + " (" + sort + ") " + sort + ")"
+	x := tt.ref(tt.intern(t.args[0]))
+	me := "t" + strconv.Itoa(id)
+	def = "(define-fun " + me + " () " + sort + " (" + fn + " " + x + "))"
+	cs := "(_ bv" + strconv.FormatUint(c, 10) + " " + strconv.Itoa(t.bits) + ")"
+	zero := "(_ bv0 " + strconv.Itoa(t.bits) + ")"
+	if t.op == opBvURem {
+		axioms = append(axioms, "(bvult "+me+" "+cs+")", "(bvule "+me+" "+x+")",
+			"(=> (bvult "+x+" "+cs+") (= "+me+" "+x+"))")
+	} else {
+		axioms = append(axioms,
+			"(bvslt "+me+" "+cs+")", "(bvslt (bvneg "+cs+") "+me+")",
+			"(=> (bvsge "+x+" "+zero+") (bvsge "+me+" "+zero+"))",
+			"(=> (bvsle "+x+" "+zero+") (bvsle "+me+" "+zero+"))",
+			"(=> (and (bvsge "+x+" "+zero+") (bvslt "+x+" "+cs+")) (= "+me+" "+x+"))")
+	}
+	// x = a - (a rem c)  =>  x rem c = 0   (no wrap-around: |a rem c| <= |a|, same sign)
+	if a := t.args[0]; a.op == opBvSub && a.args[1].op == t.op && a.args[1].args[0] == a.args[0] &&
+		a.args[1].args[1].isConst() && a.args[1].args[1].val == c {
+		axioms = append(axioms, "(= "+me+" "+zero+")")
+	}
+	return def, axioms, decl
 }
